@@ -1,7 +1,11 @@
 ------------------------------ MODULE MC_Protocol ------------------------------
 EXTENDS Protocol, Json, IOUtils
+CONSTANT MinConsume
 Complete == Len(hist) = MaxSteps
-Emit == Complete =>
+\* only behaviours in which the service provider consumes at least MinConsume messages are handed to the driver
+\* (the others exercise the harness more than the library); every behaviour is still checked against the invariants
+Consumes == Cardinality({ i \in 1..Len(hist) : hist[i][1] \in {"SPConsume", "SPConsumeLogout", "SPConsumeLogoutRequest"} })
+Emit == (Complete /\ Consumes >= MinConsume) =>
    Serialize(ToJson([family |-> "Protocol", cfg |-> [maxreq |-> MaxReq], input |-> [hist |-> hist],
                      model_out |-> [pending |-> pending, sessions |-> sessions, lpending |-> lpending, answered |-> { m.irt : m \in { x \in net : x.t = "SPLogoutResponse" } }]]) \o "\n", IOEnv.VERIF_OUT,
              [format |-> "TXT", charset |-> "UTF-8", openOptions |-> <<"WRITE", "CREATE", "APPEND">>]).exitValue = 0
